@@ -1,11 +1,26 @@
 package props
 
-import "verif/checker/core"
+import (
+	"go/ast"
+	"go/constant"
+	"go/types"
+	"strings"
+
+	"verif/checker/core"
+)
 
 func init() { register("C09", c09) }
 
+// c09RenameExempt: rename sites whose temporary file may be opened without
+// truncation, one function and one reason each.
+var c09RenameExempt = map[string]string{
+	"upgradeViewBSIv2": "one-shot format upgrade while the fragment is being opened: the temporary file's content is a deterministic function of the old-format data file, which cannot change before the upgrade completes, so a leftover of an interrupted attempt is always a prefix of the rewrite",
+}
+
 func c09(p *core.Program, r *core.Report) {
 	r.Rule("R1", "durable before acknowledged: every storage mutation is either a logging mutator (appends to the op log) applied while OpWriter is attached, or every path from it to a normal return of a fragment entry point passes the snapshot rename, or a queued snapshot followed by the wait on snapshotCond")
+	r.Rule("R2", "a file renamed over a persistent file starts empty: in package pilosa the source of every os.Rename is a temporary file created in the same function (or in the in-package function that returned its path) by os.Create, ioutil.WriteFile, or OpenFile with constant flags containing O_TRUNC or O_EXCL; a leftover from an interrupted earlier attempt is therefore never partly overwritten and then moved into place (its tail would be read as op-log records at the next start)")
+	r.NotDecided = "file-system behaviour under power loss (no fsync before the snapshot rename); torn appends to the op log (the reader's handling of a short last record is C05/C06)"
 	b, err := newFxBase(p)
 	if err != nil {
 		r.Undecide("R1", "fragment effects", "", err.Error())
@@ -13,4 +28,125 @@ func c09(p *core.Program, r *core.Report) {
 	}
 	n := b.report(r, "R1", fxDurable, nil)
 	r.Floor("C09/R1 storage-mutating functions (origins)", n, 8)
+
+	// ---- R2
+	pk := p.Pkg("")
+	info := pk.TypesInfo
+	truncFlag := func(e ast.Expr) (bool, bool) { // (truncates, decided)
+		tv, ok := info.Types[e]
+		if !ok || tv.Value == nil || tv.Value.Kind() != constant.Int {
+			return false, false
+		}
+		v, _ := constant.Int64Val(tv.Value)
+		const oExcl, oTrunc = 0x80, 0x200 // os.O_EXCL, os.O_TRUNC on linux
+		return v&(oExcl|oTrunc) != 0, true
+	}
+	// creating calls of a function body: returns how path expression `match` is created
+	type creation struct {
+		pos   string
+		ok    bool
+		how   string
+		found bool
+	}
+	findCreation := func(body *ast.BlockStmt, match func(ast.Expr) bool) creation {
+		var c creation
+		ast.Inspect(body, func(n ast.Node) bool {
+			call, ok := n.(*ast.CallExpr)
+			if !ok || len(call.Args) == 0 || c.found && !c.ok {
+				return true
+			}
+			fn := core.CalleeOf(info, call)
+			if fn == nil || fn.Pkg() == nil || !match(call.Args[0]) {
+				return true
+			}
+			key := fn.Pkg().Path() + "." + fn.Name()
+			switch {
+			case key == "os.Create", key == "io/ioutil.WriteFile", key == "os.WriteFile":
+				c = creation{p.Pos(call.Pos()), true, key, true}
+			case (key == "os.OpenFile" || strings.HasSuffix(key, "/syswrap.OpenFile")) && len(call.Args) >= 2:
+				t, decided := truncFlag(call.Args[1])
+				c = creation{p.Pos(call.Pos()), t && decided, key + "(" + types.ExprString(call.Args[1]) + ")", true}
+			}
+			return true
+		})
+		return c
+	}
+	nRen := 0
+	for _, fd := range core.AllFuncDecls(pk) {
+		if fd.Body == nil || strings.HasSuffix(p.Fset.Position(fd.Pos()).Filename, "_test.go") {
+			continue
+		}
+		ast.Inspect(fd.Body, func(nd ast.Node) bool {
+			call, ok := nd.(*ast.CallExpr)
+			if !ok || len(call.Args) != 2 {
+				return true
+			}
+			fn := core.CalleeOf(info, call)
+			if fn == nil || fn.Pkg() == nil || fn.Pkg().Path() != "os" || fn.Name() != "Rename" {
+				return true
+			}
+			nRen++
+			construct := core.FuncName(fd) + " rename " + types.ExprString(call.Args[0]) + " -> " + types.ExprString(call.Args[1])
+			src := ast.Unparen(call.Args[0])
+			srcStr := types.ExprString(src)
+			var srcObj types.Object
+			if id, ok := src.(*ast.Ident); ok {
+				srcObj = info.ObjectOf(id)
+			}
+			match := func(e ast.Expr) bool {
+				e = ast.Unparen(e)
+				if id, ok := e.(*ast.Ident); ok && srcObj != nil {
+					return info.ObjectOf(id) == srcObj
+				}
+				return types.ExprString(e) == srcStr
+			}
+			c := findCreation(fd.Body, match)
+			if !c.found && srcObj != nil {
+				// the path came from an in-package function: look for the creation there
+				ast.Inspect(fd.Body, func(m ast.Node) bool {
+					as, ok := m.(*ast.AssignStmt)
+					if !ok || len(as.Rhs) != 1 {
+						return true
+					}
+					for _, l := range as.Lhs {
+						if id, ok := ast.Unparen(l).(*ast.Ident); ok && info.ObjectOf(id) == srcObj {
+							if gc, ok := ast.Unparen(as.Rhs[0]).(*ast.CallExpr); ok {
+								if g := core.CalleeOf(info, gc); g != nil && g.Pkg() == pk.Types {
+									for _, gd := range core.AllFuncDecls(pk) {
+										if info.Defs[gd.Name] == types.Object(g) && gd.Body != nil {
+											// any string-typed path created in g
+											cc := findCreation(gd.Body, func(e ast.Expr) bool {
+												t := info.TypeOf(e)
+												b, ok := t.Underlying().(*types.Basic)
+												return ok && b.Kind() == types.String
+											})
+											if cc.found {
+												c = cc
+												c.how += " in " + core.FuncName(gd)
+											}
+										}
+									}
+								}
+							}
+						}
+					}
+					return true
+				})
+			}
+			if why, ok := c09RenameExempt[core.FuncName(fd)]; ok && !c.ok && c.found {
+				r.HoldAt("R2", construct, p.Pos(call.Pos()), "exempt: "+why)
+				return true
+			}
+			switch {
+			case !c.found:
+				r.Undecide("R2", construct, p.Pos(call.Pos()), "the creation of the renamed file was not found in this function or in the function that returned its path")
+			case c.ok:
+				r.HoldAt("R2", construct, p.Pos(call.Pos()), "created by "+c.how+" at "+c.pos)
+			default:
+				r.Violate("R2", construct, p.Pos(call.Pos()), "the temporary file is opened by "+c.how+" at "+c.pos+" without truncation: if an interrupted earlier attempt left a longer file behind, its tail survives the rewrite and is moved into place; for a fragment the tail is then parsed as op-log records and the fragment (and with it the holder) fails to open")
+			}
+			return true
+		})
+	}
+	r.Floor("C09/R2 rename sites", nRen, 5)
 }
